@@ -892,7 +892,9 @@ class SetIndex(BaseSetIndexSortValues):
             and self._other in self.frame.columns
         ):
             head = NFirst(self.frame, n=parent.n, _columns=self._other, ascending=True)
-            return SetIndex(head, _other=self._other)
+            return SetIndex(
+                head, _other=self._other, drop=self.drop, append=self.append
+            )
 
         if (
             isinstance(parent, Tail)
@@ -900,7 +902,9 @@ class SetIndex(BaseSetIndexSortValues):
             and self._other in self.frame.columns
         ):
             tail = NLast(self.frame, n=parent.n, _columns=self._other, ascending=True)
-            return SetIndex(tail, _other=self._other)
+            return SetIndex(
+                tail, _other=self._other, drop=self.drop, append=self.append
+            )
 
         if isinstance(parent, Projection):
             addition_columns = (
